@@ -965,6 +965,9 @@ func (m *Model) readCrit(c *Conn, r Req, what string) error {
 		size = m.ro.obj.Size()
 	}
 	sat := m.ro.kind == roObj && r.Off < 1<<63 && (r.N == 0 || int64(r.Off)+int64(r.N) <= size)
+	if sat && r.N == 0 && unseekable(m.ro.obj, r.Off) {
+		sat = false
+	}
 	if !sat && r.N == 0 {
 		// an empty read is vacuously satisfied; without a readable object the server
 		// may also end the connection: both are fine, nothing may arrive either way
